@@ -16,12 +16,12 @@ ASSUMPTIONS = ["values stay strictly dominant except for pivbreak steps; a step 
                "the expert-driver FACTORED protocol is covered by C07's two-step histories"]
 BUDGET = {
     "quick": {"examples": 12000, "workers": 14, "time_budget": 90, "variants": ["asan"]},
-    "thorough": {"examples": 150000, "workers": 14, "time_budget": 1300, "variants": ["asan", "vendor"], "variant_share": {"asan": 0.75, "vendor": 0.25}},
+    "thorough": {"examples": 150000, "workers": 14, "time_budget": 1300, "variants": ["asan", "vendor", "long"], "variant_share": {"asan": 0.65, "vendor": 0.2, "long": 0.15}},
 }
 
 
 def strategy(tier):
-    return hist_case(nmax=30 if tier == "quick" else 80, maxlen=8 if tier == "quick" else 20, user_ws=True)
+    return hist_case(nmax=30 if tier == "quick" else 80, maxlen=8 if tier == "quick" else 20, user_ws=True, allow_tune=True)
 
 
 def nontrivial(case, v):
